@@ -28,7 +28,7 @@
 -/
 import PandoraModel.Model.FilterIntervals
 import PandoraModel.Properties.C10
-import PandoraModel.Properties.C12
+import PandoraModel.Lemmas.C12Regul
 
 namespace Pandora.C10C12
 open Pandora Pandora.Filter Pandora.Confidence Pandora.FilterIntervals
